@@ -195,7 +195,7 @@ def real_cases(depth):
         for comp in ('Comp', 'Comp2'):
             yield dict(seed='Simple_Model', script=[two, op], comp=comp)
     if depth >= 2:
-        for op1 in ops[:-1]:
+        for op1 in site_ops(rows, RETYPES[:4])[:-1]:
             rows1 = R.seed_rows('Simple_Model')
             apply_op(rows1, op1)
             for op2 in site_ops(rows1, RETYPES[:6]):
@@ -216,8 +216,8 @@ def real_cases(depth):
       bound='tests/resources/Simple_Model.xtuml (+Globals.xtuml): every single edit (rename, retype/add attribute with 10 types, '
             'derive, move class to each component/top level, add enumerator front/middle/end, reorder enumerators, add user '
             'type on 7 bases / enumeration globally or in a component, 4 row orders, second component) at every site; every edit '
-            'after adding a second component, for both components; thorough: every pair of edits',
-      shards=8, weight=3)
+            'after adding a second component, for both components; thorough: every pair of edits (types restricted to 4 x 6)',
+      shards=10, weight=3)
 def real_models(ctx):
     for i, case in enumerate(real_cases(1 if ctx.quick else 2)):
         if i % ctx.nshards != ctx.shard:
@@ -275,7 +275,7 @@ def synth_cases(quick, rng_seed):
       bound='class diagrams with <=3 classes and <=3 relationships in 4 component layouts (package in component, two components, '
             'nested component, classes directly in a component): every one-relationship shape for each component (exhaustive); '
             '300 (quick) / 5000 (thorough) seeded random diagrams with attributes of 10 types, derived attributes and 0-2 edits',
-      shards=8, weight=2)
+      shards=6, weight=2)
 def synthesised(ctx):
     for i, case in enumerate(synth_cases(ctx.quick, ctx.seed)):
         if i % ctx.nshards != ctx.shard:
@@ -286,8 +286,9 @@ def synthesised(ctx):
         check_case(ctx, case)
     else:
         ctx.exhausted = True
-    ctx.note('attribute order inside a class element, minOccurs/maxOccurs, the restriction base of enumerations and the scope of types '
-             'that live in a component enclosing the generated one are not demanded by the property and are not compared')
+    if ctx.shard == 0:
+        ctx.note('attribute order inside a class element, minOccurs/maxOccurs, the restriction base of enumerations and the scope of types '
+                 'that live in a component enclosing the generated one are not demanded by the property and are not compared')
 
 
 def replay(item_name, input):
